@@ -50,6 +50,7 @@ def bases_of(prog, cls):
 class Summary:
     def __init__(self):
         self.reads, self.writes = set(), set()
+        self.guarded = []        # (kind 'r'/'w', loc, [(cond node, polarity)]) for accesses under branch conditions
         self.calls = []          # (objpath, callee sig, callee qname, {param: sel/arg info}, node)
         self.unknown = []        # things we could not classify
 
@@ -155,11 +156,15 @@ class Effects:
             return A.this_field(A.call_object(e))
         return A.this_field(e)
 
-    def own_summary(self, fn):
-        if fn["sig"] in self.own:
-            return self.own[fn["sig"]]
+    def own_summary(self, fn, known=None):
+        """known: {parameter name: int} for arguments that are compile-time constants at the call site; accesses
+        under a branch condition that evaluates to false for these values are not part of the summary"""
+        known = dict(known or {})
+        okey = (fn["sig"], tuple(sorted(known.items())))
+        if okey in self.own:
+            return self.own[okey]
         s = Summary()
-        self.own[fn["sig"]] = s
+        self.own[okey] = s
         cls = fn.get("class")
         fields = class_fields(self.prog, cls) if cls else {}
         params = {p["name"] for p in fn["params"]}
@@ -187,13 +192,68 @@ class Effects:
                                 if tgt and op:
                                     self._ptr_alias[d["decl"]] = (op, tgt)
 
+        fidx = A.index(fn)
+
+        def guards_of(node):
+            out = []
+            for e_ in A.enclosing(fidx, node, {"IfStmt"}):
+                th = e_.get("then")
+                el = e_.get("else")
+                if th is not None and node["id"] in {y["id"] for y in A.walk(th)}:
+                    out.append((e_["cond"], True))
+                elif el is not None and node["id"] in {y["id"] for y in A.walk(el)}:
+                    out.append((e_["cond"], False))
+            return out
+        self._guards_of = guards_of
+
+        def ev(n_):
+            n_ = A.strip(n_)
+            k_ = n_.get("k")
+            if k_ == "BinaryOperator" and n_["op"] in ("&&", "||"):
+                a_, b_ = ev(n_["c"][0]), ev(n_["c"][1])
+                if n_["op"] == "&&":
+                    return False if (a_ is False or b_ is False) else (True if (a_ is True and b_ is True) else None)
+                return True if (a_ is True or b_ is True) else (False if (a_ is False and b_ is False) else None)
+            if k_ == "UnaryOperator" and n_["op"] == "!":
+                a_ = ev(n_["c"][0])
+                return None if a_ is None else (not a_)
+            if k_ == "BinaryOperator" and n_["op"] in ("==", "!=", "<", ">", "<=", ">="):
+                def val(m_):
+                    m_ = A.strip(m_)
+                    if m_.get("k") == "DeclRefExpr" and m_.get("dkind") == "EnumConstant":
+                        return m_["enumval"]
+                    if m_.get("k") == "IntegerLiteral":
+                        return m_["value"]
+                    if m_.get("k") == "DeclRefExpr" and m_.get("dkind") == "ParmVar" and m_["name"] in known:
+                        return known[m_["name"]]
+                    return None
+                a_, b_ = val(n_["c"][0]), val(n_["c"][1])
+                if a_ is None or b_ is None:
+                    return None
+                return {"==": a_ == b_, "!=": a_ != b_, "<": a_ < b_, ">": a_ > b_, "<=": a_ <= b_, ">=": a_ >= b_}[n_["op"]]
+            return None
+
+        def live(node):
+            if not known:
+                return True
+            for c_, pol in guards_of(node):
+                v_ = ev(c_)
+                if v_ is not None and v_ != pol:
+                    return False
+            return True
+
         def add(kind, expr):
+            if not live(expr):
+                return False
             fa = self._field_access(expr, fields)
             if fa is None:
                 return False
             f, sub = fa
             sel = _first_sel(sub, params) if sub is not None else None
-            (s.writes if kind == "w" else s.reads).add((self._last_obj, f, sel))
+            loc = (self._last_obj, f, sel)
+            (s.writes if kind == "w" else s.reads).add(loc)
+            g_ = guards_of(expr)
+            s.guarded.append((kind, loc, g_))
             if kind == "w":
                 written_nodes.add(self._last_root)
             return True
@@ -222,6 +282,8 @@ class Effects:
                             for y in A.walk(a[j]):
                                 written_nodes.add(y["id"])
                 elif k == "CXXMemberCallExpr":
+                    if not live(x):
+                        continue
                     o = A.call_object(x)
                     meth = (x.get("callee") or "").split("::")[-1]
                     if x.get("callee_in_root") and x.get("callee_class", "").startswith("vfps::") and "Ruler" not in x.get("callee_class", ""):
@@ -233,6 +295,7 @@ class Effects:
                             s.unknown.append(("call on unresolved object", x))
                         else:
                             s.calls.append((op, x.get("callee_sig"), x.get("callee"), argsel, x))
+                            x["_guards"] = guards_of(x)
                             if op.startswith("this.") and not x.get("callee_const"):
                                 pass
                     elif o is not None:
@@ -260,7 +323,7 @@ class Effects:
             # reads: every this-field mention that is not (only) a write target
             for x in A.walk(root):
                 if x["k"] == "MemberExpr" and x["member"]["dkind"] == "Field" and A.is_this(x["c"][0]) and x["member"]["name"] in fields:
-                    if x["id"] in written_nodes:
+                    if x["id"] in written_nodes or not live(x):
                         continue
                     # find selector: look at the parent subscript if any (approximation: whole field)
                     s.reads.add(("this", x["member"]["name"], "?"))
@@ -271,7 +334,7 @@ class Effects:
         for root in roots:
             for x in A.walk(root):
                 if x["k"] in ("ArraySubscriptExpr",) or (x["k"] == "CXXOperatorCallExpr" and x.get("op") == "[]"):
-                    fa = self._field_access(x, fields)
+                    fa = self._field_access(x, fields) if live(x) else None
                     if fa is not None and x["id"] not in written_nodes:
                         f, sub = fa
                         refined.add(("this", f, _first_sel(sub, params) if sub is not None else None))
@@ -322,15 +385,16 @@ class Effects:
                     return cands[0]
         return f
 
-    def summary(self, fn, dyn_class=None, _stack=()):
+    def summary(self, fn, dyn_class=None, _stack=(), known=None):
         """transitive summary: own effects + effects of calls on `this` (same object), on member objects
         ('this.m' prefix) and on parameters; selectors that are parameters are substituted from call arguments"""
-        key = (fn["sig"], dyn_class)
+        known = dict(known or {})
+        key = (fn["sig"], dyn_class, tuple(sorted(known.items())))
         if key in self.memo:
             return self.memo[key]
         if key in _stack:
             return Summary()
-        own = self.own_summary(fn)
+        own = self.own_summary(fn, known)
         res = Summary()
         res.reads |= own.reads
         res.writes |= own.writes
@@ -342,7 +406,23 @@ class Effects:
                 # pure virtual or undefined here: record as opaque call
                 res.calls.append((op, sig, qname, argsel, node))
                 continue
-            sub = self.summary(callee, dyn_class if op == "this" else None, _stack + (key,))
+            sub_known = {}
+            for pn_, a_ in argsel.items():
+                c_ = A.strip(a_)
+                if c_.get("k") == "DeclRefExpr" and c_.get("dkind") == "EnumConstant":
+                    sub_known[pn_] = c_["enumval"]
+                elif c_.get("k") == "IntegerLiteral":
+                    sub_known[pn_] = c_["value"]
+                elif c_.get("k") == "CXXBoolLiteralExpr":
+                    sub_known[pn_] = 1 if c_["value"] else 0
+                elif c_.get("k") == "DeclRefExpr" and c_.get("dkind") == "ParmVar" and c_["name"] in known:
+                    sub_known[pn_] = known[c_["name"]]
+            # callee parameter names as written in the definition
+            defn = [p_["name"] for p_ in callee["params"]]
+            decl = node.get("callee_params", [])
+            ren = {decl[j]: defn[j] for j in range(min(len(decl), len(defn)))}
+            sub_known = {ren.get(k_, k_): v_ for k_, v_ in sub_known.items()}
+            sub = self.summary(callee, dyn_class if op == "this" else None, _stack + (key,), sub_known)
             for kind, locs in (("r", sub.reads), ("w", sub.writes)):
                 for (o, f, sel) in locs:
                     if isinstance(sel, tuple) and sel[0] == "param":
